@@ -50,6 +50,8 @@ fn session_opts() -> Opts {
 			("failing.libsonnet".to_owned(), b"local n = std.extVar('missing_variable'); { n: n }".to_vec()),
 			("asserting.libsonnet".to_owned(), b"assert 1 > 2 : 'library invariant'; { a: 1 }".to_vec()),
 			("lazy.libsonnet".to_owned(), b"{ a: error 'lazy failure', b: 1 }".to_vec()),
+			// an object whose own invariant fails: the (cached) object outlives the failed evaluation
+			("invariant.libsonnet".to_owned(), b"{ assert self.replicas > 0 : 'replicas must be positive', replicas: 0, name: 'svc' }".to_vec()),
 		],
 		..Opts::default()
 	}
@@ -59,6 +61,8 @@ const HISTORY: &[&str] = &[
 	"import 'failing.libsonnet'",
 	"import 'asserting.libsonnet'",
 	"(import 'lazy.libsonnet').a",
+	"(import 'invariant.libsonnet').name",
+	"import 'invariant.libsonnet'",
 	"import 'ok.libsonnet'",
 	"1 + 1",
 	"error 'earlier failure'",
@@ -139,6 +143,9 @@ pub fn gen_program(src: &mut Src) -> (String, Vec<String>) {
 				"{ a: (import 'ok.libsonnet').items, b: (import 'lazy.libsonnet').b }",
 				"(import 'lazy.libsonnet').a",
 				"local l = import 'asserting.libsonnet'; l.a",
+				"(import 'invariant.libsonnet').name",
+				"std.objectFields(import 'invariant.libsonnet')",
+				"[std.length(import 'invariant.libsonnet'), (import 'invariant.libsonnet').replicas]",
 			]))
 			.to_owned()
 		}
